@@ -1075,6 +1075,15 @@ func (ev *Eval) applyPred(pd *PredDef, e ECall) TV {
 		ev.errorf("predicate expansion too deep (%s)", pd.Name)
 		return TV{T: "true", Ty: vtBool}
 	}
+	if pd.GField {
+		rt := vtInt
+		if pd.Ret != nil {
+			rt = ev.resolveType(*pd.Ret)
+		}
+		a := ev.rval(ev.eval(e.Args[0]))
+		srt := "(Array Int " + ev.vc().vtSort(rt) + ")"
+		return TV{T: sSel(ev.ex.get(ev.state(), "GF:"+pd.Name, srt), a.T), Ty: rt}
+	}
 	if pd.Uninterp {
 		var as, ss []string
 		for i, p := range pd.Params {
@@ -1160,6 +1169,21 @@ func (ev *Eval) modTargets(loc string) []modTarget {
 		}
 		ev.errorf("modifies all: no field %s", spec)
 		return nil
+	}
+	if k := strings.Index(loc, "("); k > 0 && strings.HasSuffix(loc, ")") {
+		if pd, ok := ex.vc.w.Contracts.Preds[strings.TrimSpace(loc[:k])]; ok && pd.GField {
+			e, err := parseExpr(loc[k+1 : len(loc)-1])
+			if err != nil {
+				ev.errorf("modifies %s: %v", loc, err)
+				return nil
+			}
+			rt := vtInt
+			if pd.Ret != nil {
+				rt = ev.resolveType(*pd.Ret)
+			}
+			a := ev.rval(ev.eval(e))
+			return []modTarget{{key: "GF:" + pd.Name, sort: "(Array Int " + ev.vc().vtSort(rt) + ")", idx: a.T}}
+		}
 	}
 	if strings.HasPrefix(loc, "ghost ") {
 		name := strings.TrimSpace(loc[6:])
